@@ -1,0 +1,21 @@
+//go:build verif
+
+package logic
+
+// Hooks for the external verification harness. Compiled only with `-tags verif`.
+
+// VerifTick does to the groups what one iteration of RunLoop's one-second ticker does (an inactive group is
+// disposed and erased, every other group is ticked), under the server manager lock, so that a harness which
+// does not run RunLoop can own the clock.
+func (sm *ServerManager) VerifTick(tickCount uint32) {
+	sm.mutex.Lock()
+	defer sm.mutex.Unlock()
+	sm.groupManager.Iterate(func(group *Group) bool {
+		if group.IsInactive() {
+			group.Dispose()
+			return false
+		}
+		group.Tick(tickCount)
+		return true
+	})
+}
